@@ -176,3 +176,31 @@ Proof.
   set (pre := dns_header_reply m ++ concat (map ser_question (d_qd m))).
   rewrite !firstn_app, !Nat.sub_diag, !firstn_all. reflexivity.
 Qed.
+
+(* ---- frame level: two datagrams carrying the same payload, whatever their addresses,
+   ports, IP version, configuration and history ---- *)
+From MS Require Import L2 Spec.View Spec.RefDec Proofs.Lift.
+
+Theorem frames_same_payload E clk cfg cfg' tb tb2 f f' v v' tb' tb2' r r' evs evs' :
+  cfg_ok cfg = true -> cfg_ok cfg' = true -> bytes_ok f = true -> bytes_ok f' = true ->
+  view_udp cfg f = Some v -> view_udp cfg' f' = Some v' ->
+  skipn 8 (v_l4 v) = skipn 8 (v_l4 v') ->
+  reply E cfg clk tb f = Ok (tb', r, evs) ->
+  reply E cfg' clk tb2 f' = Ok (tb2', r', evs') ->
+  exists c, udp_core E clk (skipn 8 (v_l4 v)) = Ok c /\
+            udp_resp r = Some (render c (udp_ci f v)) /\
+            udp_resp r' = Some (render c (udp_ci f' v')).
+Proof.
+  intros Hc Hc' Hf Hf' Hv Hv' Hp Hr Hr'.
+  destruct (udp_lift _ _ _ _ _ _ _ _ _ Hc Hf Hv Hr) as (_ & ci1 & out & Hpr & Hresp & _).
+  destruct (udp_lift _ _ _ _ _ _ _ _ _ Hc' Hf' Hv' Hr') as (_ & ci2 & out' & Hpr' & Hresp' & _).
+  pose proof (udp_context_free E clk (skipn 8 (v_l4 v)) (udp_ci f v) (udp_ci_full f v)) as A.
+  pose proof (udp_context_free E clk (skipn 8 (v_l4 v')) (udp_ci f' v') (udp_ci_full f' v')) as B.
+  rewrite <- Hp in B.
+  destruct (udp_core E clk (skipn 8 (v_l4 v))) as [c|s].
+  - destruct A as (x & A & _). destruct B as (y & B & _).
+    rewrite Hpr in A. rewrite <- Hp in Hpr'. rewrite Hpr' in B.
+    inversion A; subst. inversion B; subst.
+    exists c. repeat split; assumption.
+  - rewrite Hpr in A. discriminate.
+Qed.
